@@ -96,7 +96,7 @@ for pid in order:
       "replay_cmd_template":f"./check {pid} --replay {{path}}",
       "engine":c["engine"],
       "level_claimed":{"category":c["level"],"text":c["text"],"design_ref":c["ref"]},
-      "level_note":c["note"],
+      "level_note":c["note"] + (" Thorough tier additionally runs the quick workload in an AddressSanitizer build" + (" and a ThreadSanitizer build" if pid in ("C01","C04","C05","C17") else "") + " of the harness; a sanitizer report is a violation (DESIGN.md section 4)." if pid in ("C01","C04","C05","C06","C08","C10","C11","C12","C13","C14","C16","C17","C18") else ""),
       "technique":c["technique"],
     })
 na=[{"property_id":p["id"],"reason":"monitor not built yet in this session (work in progress, DESIGN.md section 8 build order); not a claim that the technique cannot apply"} for p in props if p["id"] not in CHECKS]
